@@ -535,6 +535,18 @@ fn logged_call(log: &Log, w: &Mutex<World>, case: &str, th: &str, call: &Value) 
     let f = gs(call, "fn").to_string();
     let h = { w.lock().unwrap().real(gi(call, "h")) } as i64;
     let n1 = gi(call, "n1").clamp(i32::MIN as i64, i32::MAX as i64);
+    // single-thread histories: what the Rust API lists for a writable archive right now (the listing of the C API is
+    // compared with it, not with a model of when wow-mpq refreshes its read-only view)
+    if SEQ_CASE.load(Ordering::SeqCst) && matches!(f.as_str(), "EnumFiles" | "FindFirst" | "VerifyArchive") {
+        let mut g = w.lock().unwrap();
+        if let Some(t) = g.twins.get_mut(&(h as usize)) {
+            if let Ok(l) = t.list() {
+                let rl: Vec<String> = l.iter().map(|e| model_name(&e.name)).collect();
+                drop(g);
+                log.ev(json!({"ev":"List","case":case,"th":th,"h":h,"rl":rl}));
+            }
+        }
+    }
     log.pending.lock().unwrap().insert(th.to_string(), (f.clone(), Instant::now()));
     log.ev(json!({"ev":"Inv","case":case,"th":th,"fn":f,"h":h,"name":gs(call,"name"),"n1":n1,"n2":gi(call,"n2"),"dat":call["dat"]}));
     LOCKS.with(|l| l.borrow_mut().clear());
@@ -556,6 +568,7 @@ thread_local! { static TH_NAME: std::cell::RefCell<String> = const { std::cell::
 thread_local! { static LOCKS: std::cell::RefCell<Vec<(String, Vec<String>)>> = const { std::cell::RefCell::new(Vec::new()) }; }
 /// lock-trace mode ("lockorder" cases, single thread): at every sync point the three table locks are probed
 static LTRACE: AtomicBool = AtomicBool::new(false);
+static SEQ_CASE: AtomicBool = AtomicBool::new(false);
 
 /// Probing whether a table lock is held right now: a helper thread calls an API function that takes exactly
 /// that lock (with a never-issued handle). No answer while the probed thread is parked = the lock is held.
@@ -703,6 +716,7 @@ fn run_case(log: &Arc<Log>, idx: usize, case: &Value, limit: Duration) -> bool {
     let hook = cfg!(c19_has_hook);
     log.ev(json!({"ev":"Reset","case":cid,"kind":gs(case,"kind"),"disk":disk,"order":order,"hook":hook,
                   "label":case.get("label").cloned().unwrap_or(json!("")) }));
+    SEQ_CASE.store(gs(case, "kind") == "seq", Ordering::SeqCst);
     let w = Arc::new(Mutex::new(world));
     let done = Arc::new(AtomicUsize::new(0));
     let mut nthreads = 0usize;
